@@ -5,7 +5,7 @@ from report import Rule
 from mirlib import callee_name, callee_of, op_const, op_place
 import mustlib as M
 from astlib import find_all, find_first, show, show_pat, quotes_in, tok_text, tok_interps
-from rules.common import flat, flatp, has
+from rules.common import flat, flatp, has, same
 
 EXPLANATION = (
     "Static analysis; nothing executed. Decided structural clauses: (R1) cache-key soundness, on MIR: in each of the 7 "
